@@ -6,7 +6,17 @@ from gen import *
 from sessions import validate_cases
 
 A, B, X, Y, Z, ESC, CX = 97, 98, 120, 121, 122, 27, 24
-POOL = [(A,), (B,), (X,), (A, B), (A, A), (A, B, X), (B, A), (ESC,), (ESC, A), (ESC, B, A), (CX,), (CX, A), (CX, CX), (ESC, B)]
+MA, MB = 0xE1, 0xE2     # Meta-a, Meta-b as 8-bit codes: the dispatcher reads them as ESC a, ESC b (convert-meta)
+POOL = [(A,), (B,), (X,), (A, B), (A, A), (A, B, X), (B, A), (ESC,), (ESC, A), (ESC, B, A), (CX,), (CX, A), (CX, CX), (ESC, B),
+        (MA,), (A, MB), (CX, MB), (MB, A)]
+
+
+def conv(seq):
+    """the key sequence as typed / as the reference sees it: meta-encoded keys become ESC + key"""
+    out = []
+    for c in seq:
+        out += [ESC, c - 0x80] if c >= 0x80 else [c]
+    return out
 BODIES = [(A, B), (X,), (ESC, B), (A,), (B, B, A), (CX, A)]
 MAIN_KM = ["emacs", "vi-insert", "vi-command"]
 LOCAL_KM = ["vi-opp", "vi-visual", "menu-select"]
@@ -34,7 +44,7 @@ def gen_tables(rng, n, vi):
         macro = None
         if rng.random() < 0.4:
             ms = rng.choice(seqs)
-            cand = [b for b in BODIES if ms[0] not in b and not (vi and b[-1] == ESC)]
+            cand = [b for b in BODIES if conv(ms)[0] not in b and not (vi and b[-1] == ESC)]
             if cand:
                 macro = (ms, rng.choice(cand))
         key = (seqs, macro)
@@ -42,11 +52,14 @@ def gen_tables(rng, n, vi):
             continue
         seen.add(key)
         t = []
+        cs = [tuple(conv(s)) for s in seqs]
+        if len(set(cs)) < len(cs) or (vi and any(c == (ESC,) for c in cs)):
+            continue
         for i, s in enumerate(seqs):
             if macro and macro[0] == s:
-                t.append({"seq": list(s), "cmd": "", "macro": True, "body": list(macro[1])})
+                t.append({"seq": conv(s), "raw": list(s), "cmd": "", "macro": True, "body": list(macro[1])})
             else:
-                t.append({"seq": list(s), "cmd": "p%d" % i, "macro": False, "body": []})
+                t.append({"seq": conv(s), "raw": list(s), "cmd": "p%d" % i, "macro": False, "body": []})
         tables.append(t)
     return tables
 
@@ -123,7 +136,7 @@ def run(rep, tier, seed):
                 binds = []
                 for e in full:
                     inlocal = local and e in table
-                    binds.append({"km": km if inlocal else mainkm, "seq": bytes(e["seq"]).hex(),
+                    binds.append({"km": km if inlocal else mainkm, "seq": "".join(map(chr, e.get("raw", e["seq"]))).encode("utf-8").hex(),
                                   "act": (bytes(e["body"]).decode("latin1") if e["macro"] else e["cmd"]), "macro": e["macro"]})
                 sess = []
                 steps = []
@@ -156,7 +169,7 @@ def run(rep, tier, seed):
         cid = cs["id"]
         m = meta[cid]
         evs = bycase.get(cid, [])
-        lines = [({"ev": "case", "table": m["table"]}, {"meta": {k: v for k, v in m.items() if k != "steps"}})]
+        lines = [({"ev": "case", "table": [{k: v for k, v in e.items() if k != "raw"} for e in m["table"]]}, {"meta": {k: v for k, v in m.items() if k != "steps"}})]
         cur = None
         skip = m["skip"]
         for e in evs:
@@ -206,7 +219,7 @@ def replay(rep, rp):
     wd = workdir("c03-replay")
     cs = rp["case"]
     by = run_harness("session", [cs], wd, nproc=1)
-    lines = [({"ev": "case", "table": rp["meta"]["table"]}, {})]
+    lines = [({"ev": "case", "table": [{k: v for k, v in e.items() if k != "raw"} for e in rp["meta"]["table"]]}, {})]
     cur = None
     skip = rp["meta"].get("skip", 0)
     for e in by.get(cs["id"], []):
